@@ -429,6 +429,8 @@ impl DatabaseHandle {
     where
         F: FnMut(&mut Database) -> R,
     {
+        #[cfg(dnp3_verif)]
+        crate::verif::hooks::lock_point("transaction");
         let ret = {
             let mut db = self.inner.lock().unwrap();
             func(&mut db)
@@ -458,11 +460,15 @@ impl DatabaseHandle {
 
     pub(crate) async fn clear_written_events(&mut self, app: &mut dyn OutstationApplication) {
         app.begin_confirm();
+        #[cfg(dnp3_verif)]
+        crate::verif::hooks::lock_point("clear_written_events");
         let state = self.inner.lock().unwrap().inner.clear_written_events(app);
         app.end_confirm(state).get().await;
     }
 
     pub(crate) fn get_events_info(&self) -> EventsInfo {
+        #[cfg(dnp3_verif)]
+        crate::verif::hooks::lock_point("get_events_info");
         let guard = self.inner.lock().unwrap();
 
         EventsInfo {
@@ -473,6 +479,8 @@ impl DatabaseHandle {
 
     pub(crate) fn select(&mut self, headers: &HeaderCollection) -> Iin2 {
         let mut iin2 = Iin2::default();
+        #[cfg(dnp3_verif)]
+        crate::verif::hooks::lock_point("select");
         let mut guard = self.inner.lock().unwrap();
         for header in headers.iter() {
             match ReadHeader::get(&header) {
@@ -486,6 +494,8 @@ impl DatabaseHandle {
     }
 
     pub(crate) fn write_response_headers(&mut self, cursor: &mut WriteCursor) -> ResponseInfo {
+        #[cfg(dnp3_verif)]
+        crate::verif::hooks::lock_point("write_response_headers");
         self.inner
             .lock()
             .unwrap()
@@ -498,6 +508,8 @@ impl DatabaseHandle {
         classes: EventClasses,
         cursor: &mut WriteCursor,
     ) -> usize {
+        #[cfg(dnp3_verif)]
+        crate::verif::hooks::lock_point("write_unsolicited");
         let mut guard = self.inner.lock().unwrap();
         guard.inner.reset();
         let count = guard.inner.select_event_classes(classes);
@@ -508,6 +520,8 @@ impl DatabaseHandle {
     }
 
     pub(crate) fn reset(&mut self) {
+        #[cfg(dnp3_verif)]
+        crate::verif::hooks::lock_point("reset");
         self.inner.lock().unwrap().inner.reset()
     }
 }
